@@ -286,7 +286,7 @@ int main(int argc, char** argv)
             return run_wf(w);
         });
     }
-    if (mode == "accept") {
+    if (mode == "accept" || mode == "accept3") {
         AcceptEnv env;
         return vd::main_loop([&](const std::vector<std::string>& w, const std::string&) -> std::string {
             if (w.empty() || w[0] != "acc") return "BADCASE";
